@@ -118,7 +118,17 @@ SWEEP_K2 = [(cls, mk, k) for cls in ("Signal", "AccSignal") for mk in MKINDS[cls
 SWEEP_K2_READS = [(cls, x, k) for cls, obs in (("Signal", OBS_SIG), ("AccSignal", OBS_ACC)) for x in obs
                   if x in GROUP_OF for k in range(4)]
 SWEEP_NI = [(m, i, v) for m in sorted(CUSTOM_KW) for i in range(len(CUSTOM_KW[m])) for v in ("pair", "cluster") for _ in range(2)]
-N_SWEEP = len(SWEEP_STATE) + len(SWEEP_K2) + len(SWEEP_K2_READS) + len(SWEEP_NI)
+# A-B-change-A: a setting is replaced, something happens, and exactly the earlier setting is assigned again
+ABA_SETS = {"Signal": ["attr:smooth_fa_freqs", "attr:smooth_fa_frequencies", "gen_smooth"],
+            "AccSignal": ["attr:smooth_fa_freqs", "gen_smooth", "attr:response_times", "gen_resp", "generate_resp", "resp_series"]}
+SWEEP_ABA = [(cls, how, "mut:" + m) for cls, muts in (("Signal", MUT_SIG), ("AccSignal", MUT_ACC)) for how in ABA_SETS[cls]
+             for m in muts] + [(cls, how, "none") for cls in ("Signal", "AccSignal") for how in ABA_SETS[cls]]
+# coincidences that fool a "has anything changed?" shortcut: equal content, equal sum, equal hash, equal ends, equal multiset
+COINCIDENCES = ["add_constant:0", "add_series:zeros", "reset:same", "reset:reversed", "reset:-1to-2", "add_series:-1at-1",
+                "add_series:sum0", "reset:same-ends", "reset:negated", "reset:as-f4", "reset:as-i8", "reset:as-list", "reset:rolled",
+                "add_series:swap"]
+SWEEP_COIN = [(cls, n, c) for cls in ("Signal", "AccSignal") for n in (15, 16) for c in COINCIDENCES]
+N_SWEEP = len(SWEEP_STATE) + len(SWEEP_K2) + len(SWEEP_K2_READS) + len(SWEEP_NI) + len(SWEEP_ABA) + len(SWEEP_COIN)
 REPRESENTATIVE = {"fa": ["fa_spectrum", "fa_spectrum_abs", "fa_freqs", "fa_frequencies"], "smooth": ["smooth_fa_spectrum"],
                   "vd": ["velocity", "displacement"], "pga": ["pga"], "pgv": ["pgv"], "pgd": ["pgd"],
                   "resp": ["s_a", "s_v", "s_d"]}
@@ -210,9 +220,15 @@ class C04(Profile):
         elif index < len(SWEEP_STATE) + len(SWEEP_K2) + len(SWEEP_K2_READS):
             cls, x, k = SWEEP_K2_READS[index - len(SWEEP_STATE) - len(SWEEP_K2)]
             cfg.update(run_class="sweep-k2-read", faults_on=True, sweep={"cls": cls, "state": [], "read": x, "site": k})
-        else:
+        elif index < len(SWEEP_STATE) + len(SWEEP_K2) + len(SWEEP_K2_READS) + len(SWEEP_NI):
             m, i, v = SWEEP_NI[index - len(SWEEP_STATE) - len(SWEEP_K2) - len(SWEEP_K2_READS)]
             cfg.update(run_class="sweep-state", sweep={"cls": "AccSignal", "state": [], "ni": {"m": m, "kw": CUSTOM_KW[m][i], "variant": v}})
+        elif index < len(SWEEP_STATE) + len(SWEEP_K2) + len(SWEEP_K2_READS) + len(SWEEP_NI) + len(SWEEP_ABA):
+            cls, how, mk = SWEEP_ABA[index - len(SWEEP_STATE) - len(SWEEP_K2) - len(SWEEP_K2_READS) - len(SWEEP_NI)]
+            cfg.update(run_class="sweep-state", sweep={"cls": cls, "state": [], "aba": {"how": how, "mk": mk}})
+        else:
+            cls, n, c = SWEEP_COIN[index - len(SWEEP_STATE) - len(SWEEP_K2) - len(SWEEP_K2_READS) - len(SWEEP_NI) - len(SWEEP_ABA)]
+            cfg.update(run_class="sweep-state", sweep={"cls": cls, "state": [], "coin": {"n": n, "c": c}})
         return cfg
 
     def new_world(self, config):
@@ -811,6 +827,7 @@ class OpGen(object):
         self.emitted = 0
         self.mut_off = set(config.get("mut_off", []))
         self._world = None
+        self.past = {}         # (party, setting) -> the last few arrays assigned to it
         self.ranges = {}       # party -> the (limits, count) of the last range-type smoothing setting (constructor included)
 
     # -- entry point -------------------------------------------------------------------------------
@@ -860,6 +877,74 @@ class OpGen(object):
         rng, cfg = self.rng, self.cfg
         sw = cfg["sweep"]
         cls = sw["cls"]
+        if "aba" in sw:
+            how, mk = sw["aba"]["how"], sw["aba"]["mk"]
+            self.queue.append(lambda w: self.g_new("S0", cls))
+            if mk == "mut:add_signal":
+                self.queue.append(lambda w: self.g_new("S1", cls, like="S0"))
+            grp = "resp" if how in SET_RESP else "smooth"
+            x = rng.choice(REPRESENTATIVE[grp])
+            a_vals = gen_periods(rng) if grp == "resp" else gen_freqs(rng)
+            b_vals = gen_periods(rng) if grp == "resp" else gen_freqs(rng)
+            how_b = rng.choice(ABA_SETS[cls][:2] if grp == "smooth" else ABA_SETS[cls][2:])
+            self.queue.append(lambda w: {"op": "set", "p": "S0", "how": how, "v": nd(a_vals)})
+            self.queue.append(lambda w: {"op": "read", "p": "S0", "x": x})
+            self.queue.append(lambda w: {"op": "set", "p": "S0", "how": how_b, "v": nd(b_vals)})
+            if rng.random() < 0.5:
+                self.queue.append(lambda w: {"op": "read", "p": "S0", "x": x})
+            if mk != "none":
+                self.queue.append(lambda w: self.g_directed(w, "S0", mk, want_fault=False))
+            self.queue.append(lambda w: {"op": "set", "p": "S0", "how": how, "v": nd(a_vals)})     # bit for bit the earlier one
+            self.queue.append(lambda w: {"op": "read", "p": "S0", "x": x})
+            return
+        if "coin" in sw:
+            n, c = sw["coin"]["n"], sw["coin"]["c"]
+            vals = [float(rng.randint(-3, 3)) for _ in range(n)]
+            i1, i2 = rng.sample(range(1, n - 1), 2)
+            vals[i1], vals[i2] = -1.0, 1.0
+            self.queue.append(lambda w: {"op": "new", "p": "S0", "cls": cls, "values": nd(vals), "dt": 0.01,
+                                         "kw": {"smooth_fa_freqs": nd([0.5, 2.0, 8.0])} if cls == "Signal" else
+                                         {"smooth_fa_freqs": nd([0.5, 2.0, 8.0]), "response_times": nd([0.1, 0.5, 1.0])}})
+            obs = list(OBS_ACC if cls == "AccSignal" else OBS_SIG)
+            rng.shuffle(obs)
+            for x in obs:
+                self.queue.append(lambda w, x=x: {"op": "read", "p": "S0", "x": x})
+            kind, arg = c.split(":")
+            new = list(vals)
+            if c == "add_constant:0":
+                op = {"op": "mut", "p": "S0", "m": "add_constant", "a": [0.0], "kw": {}}
+            elif kind == "add_series":
+                ser = [0.0] * n
+                if arg == "-1at-1":
+                    ser[i1] = -1.0
+                elif arg == "sum0":
+                    ser[i1], ser[i2] = 2.0, -2.0
+                elif arg == "swap":
+                    ser[i1], ser[i2] = vals[i2] - vals[i1], vals[i1] - vals[i2]
+                op = {"op": "mut", "p": "S0", "m": "add_series", "a": [nd(ser)], "kw": {}}
+            else:
+                if arg == "reversed":
+                    new = new[::-1]
+                elif arg == "-1to-2":
+                    new[i1] = -2.0
+                elif arg == "same-ends":
+                    new[i1], new[i2] = 3.0, -3.0
+                elif arg == "negated":
+                    new = [-v for v in new]
+                elif arg == "rolled":
+                    new = new[1:] + new[:1]
+                a = nd(new)
+                if arg == "as-f4":
+                    a = nd(new, "f4")
+                elif arg == "as-i8":
+                    a = nd(new, "i8")
+                elif arg == "as-list":
+                    a = list(new)
+                op = {"op": "mut", "p": "S0", "m": "reset_values", "a": [a], "kw": {}}
+            self.queue.append(lambda w: op)
+            for x in obs[:4]:
+                self.queue.append(lambda w, x=x: {"op": "read", "p": "S0", "x": x})
+            return
         if "ni" in sw:
             ni = sw["ni"]
             if ni["variant"] == "cluster":
@@ -960,6 +1045,16 @@ class OpGen(object):
             return nd([v * 10 for v in vals], "i8")
         if r < 0.20:
             return [float(v) for v in vals]     # a Python list
+        if r < 0.225 and len(vals) >= 3 and not self.cfg.get("strict_fp"):
+            # a record with a gap or a spike marker: NaN / inf samples are legal values of a float array
+            vals = list(vals)
+            for _ in range(rng.randint(1, 2)):
+                vals[rng.randrange(len(vals))] = rng.choice([float("nan"), float("inf"), float("-inf")])
+            return {"nd": "f8", "v": vals}
+        if r < 0.26:
+            # small integers stored as floats (exact equalities, exact sums, hash coincidences)
+            m = rng.choice([1, 2, 3])
+            return nd([float(rng.randint(-m, m)) for _ in vals])
         return nd(vals)
 
     def _dt(self):
@@ -983,6 +1078,7 @@ class OpGen(object):
             if cls == "AccSignal":
                 if rng.random() < 0.85:
                     op["kw"]["response_times"] = nd(gen_periods(rng, allow_zero=True))
+                    self.past[(name, "resp")] = [list(op["kw"]["response_times"]["v"])]
                 else:
                     op["kw"]["response_period_range"] = {"tu": [round(rng.uniform(0.05, 0.5), 3), round(rng.uniform(1, 4), 2)]}
         return op
@@ -1070,7 +1166,9 @@ class OpGen(object):
         obj = world.objs[p]
         try:
             v = np.asarray(obj.values, dtype=float)
-            big = (v.size > 0) and (not np.isfinite(v).all() or float(np.max(np.abs(v))) > LIMIT)
+            fin = v[np.isfinite(v)]
+            # (non-finite *samples* are legal input and are left alone; what the guard prevents is runaway growth)
+            big = (fin.size > 0 and float(np.max(np.abs(fin))) > LIMIT) or (v.size > 0 and fin.size == 0)
         except Exception:  # noqa
             big = True
         if big:
@@ -1091,6 +1189,10 @@ class OpGen(object):
         if m is None:
             pool = [x for x in (MUT_ACC if acc else MUT_SIG) if x not in self.mut_off] or ["add_constant"]
             m = rng.choice(pool)
+            small = capture(lambda: bool(len(obj.values) >= 2 and np.all(np.abs(np.asarray(obj.values, dtype=float)) <= 3)
+                                         and np.all(np.asarray(obj.values, dtype=float) % 1 == 0)))
+            if small.ok and small.value and rng.random() < 0.4:
+                m = "add_series"        # small integers stored as floats: go for changes of single samples by +-1
         n = len(obj.values)
         dt = float(obj.dt)
         k1 = self.cfg["faults_on"] and rng.random() < self.cfg["k1_rate"]
@@ -1147,9 +1249,25 @@ class OpGen(object):
                 ln = max(0, n + rng.choice([-2, -1, 1, 3]))
                 op["k1"] = True
             ser = gen_record(rng, ln, amp=amp)
-            if rng.random() < 0.15:
+            c = rng.random()
+            if c < 0.15:
                 f = rng.choice([1e-6, 1e-8, 1e-10])
                 ser = [v * f for v in ser]
+            elif c < 0.35 and ln >= 2 and not k1:
+                # a change confined to one or two samples: exactly one sample moves; two move and the sum stays; two swap
+                ser = [0.0] * ln
+                cur = capture(lambda: [float(x) for x in np.asarray(obj.values, dtype=float)])
+                i, j = rng.sample(range(ln), 2)
+                form = rng.choice(["one", "one", "sum", "swap"])
+                d = rng.choice([-1.0, 1.0, -2.0, 2.0, 0.5, round(amp * 0.3, 3) or 1.0])
+                if form == "one":
+                    ser[i] = d
+                elif form == "sum":
+                    ser[i], ser[j] = d, -d
+                elif cur.ok and np.isfinite(cur.value[i]) and np.isfinite(cur.value[j]):
+                    ser[i], ser[j] = cur.value[j] - cur.value[i], cur.value[i] - cur.value[j]
+                else:
+                    ser[i] = d
             op["a"] = [ser if rng.random() < 0.3 else nd(ser)]
         elif base == "add_signal":
             others = [q for q in sorted(world.objs) if q != p]
@@ -1250,6 +1368,12 @@ class OpGen(object):
                 (lo, hi), npt = mem                 # exactly the range setting that was applied before (or the constructor's)
             elif c < 0.55:
                 npt = len(obj.smooth_fa_freqs)      # a new range with the current number of points
+            elif c < 0.75 and len(obj.smooth_fa_freqs) >= 2:
+                # the count and the end points of the grid the object has now, whatever its interior
+                npt = len(obj.smooth_fa_freqs)
+                lo, hi = float(obj.smooth_fa_freqs[0]), float(obj.smooth_fa_freqs[-1])
+                if not (lo > 0 and hi > 0):
+                    lo, hi = 0.1, 30.0
             op["v"] = {"tu": [{"tu": [lo, hi]} if rng.random() < 0.6 else [lo, hi], npt]}
             self.ranges[p] = ((lo, hi), npt)
         elif how == "attr:smooth_freq_range":
@@ -1286,6 +1410,15 @@ class OpGen(object):
                     if rng.random() < 0.6:
                         op["reuse"] = True
                         op["no_fault"] = True
+        # a setting this object had before, assigned again bit for bit (after whatever happened in between)
+        if isinstance(op.get("v"), dict) and "nd" in op["v"] and how in ("attr:smooth_fa_freqs", "attr:smooth_fa_frequencies",
+                                                                          "gen_smooth") + tuple(SET_RESP):
+            hk = (p, "resp" if how in SET_RESP else "smooth")
+            past = self.past.setdefault(hk, [])
+            if past and not op.get("reuse") and rng.random() < 0.25:
+                op["v"] = {"nd": "f8", "v": list(rng.choice(past))}
+            past.append(list(op["v"]["v"]))
+            del past[:-4]
         # a grid with the same count and exactly the same end points as the grid that this object -- or another object of
         # the world -- currently has, but another interior (anything keyed by count and end points confuses the two)
         if how in ("attr:smooth_fa_freqs", "attr:smooth_fa_frequencies", "gen_smooth") + tuple(SET_RESP) and \
